@@ -118,7 +118,8 @@ def _shards():
     out = []
     for d in DOCS:
         for b in range(8):
-            out.append({"doc": d, "bits": b, "seq": False})
+            for half in (0, 1):
+                out.append({"doc": d, "bits": b, "seq": False, "half": half})
     out += [{"doc": "Q1", "bits": 7, "seq": True}, {"doc": "Q5", "bits": 0, "seq": True}, {"doc": "Q4", "bits": 7, "seq": True}]
     return out
 
@@ -140,7 +141,12 @@ def c02_single(k: int, kind: int, payload: int) -> bool:
     sh = shard()
     doc, bits = sh["doc"], sh["bits"]
     pts = POINTS[doc]
-    k = pick(k, len(pts)); kind = pick(kind, NK)
+    if "half" in sh:            # fault points split in two halves per shard
+        mid = (len(pts) + 1) // 2
+        k = pick(k, mid) if sh["half"] == 0 else mid + pick(k, len(pts) - mid)
+    else:
+        k = pick(k, len(pts))
+    kind = pick(kind, NK)
     if meaningless(doc, k, kind):
         return True
     eng = (ENGS_SEQ if sh["seq"] else ENGS)[bits]
